@@ -39,6 +39,12 @@ def plan(tier, seed):
         grid = [int(rng.integers(1, lim + 1)) for _ in range(nd)]
         batch = pick(rng, [[], [], [2], [1, 3], [2, 3]])
         pts = pick(rng, [[5], [7], [2, 3], [1]])
+        if i % 8 == 7:
+            # size-dependent regime: long axes, more than three batch entries, many points
+            grid = [int(pick(rng, [[16, 17, 31, 32, 33, 40], [12, 16, 17], [7, 8, 9]][nd - 1]))
+                    for _ in range(nd)]
+            batch = pick(rng, [[], [5], [4, 2]])
+            pts = pick(rng, [[33], [4, 9]])
         kernel, param, width = lops._kernel_params(rng, nd)
         P.add("kernel", grid=grid, batch=batch, pts=pts, nd=nd,
               ccls=pick(rng, ["inside", "outside", "ties", "integer", "dup"]),
@@ -59,6 +65,9 @@ def run_case(case):
     coord = lops.make_coord(case["cseed"], pts, grid, case["ccls"])
     x = crandn(rng, batch + grid, dt)
     y = crandn(rng, batch + pts, dt)
+    mag = [1, 1, 1, 1e-10, 1e8][sum(case["rs"]) % 5]      # both functions are homogeneous
+    if mag != 1:
+        x, y = x * dt.type(mag), y * dt.type(mag)
     layout = case.get("layout", "C")
     if layout == "F":
         x, y = np.asfortranarray(x), np.asfortranarray(y)
